@@ -129,6 +129,20 @@ class Folder:
         if isinstance(st, ast.Raise):
             raise _Raise()
         if isinstance(st, ast.Pass): return
+        if isinstance(st, ast.Try) and not st.finalbody:
+            # a raise in the body (explicit, or a Python error of a pure operation) is taken by the first handler
+            try:
+                for s in st.body: self.stmt(s, env)
+            except (_Return, Unfoldable):
+                raise
+            except (_Raise, ValueError, KeyError, IndexError, TypeError, ZeroDivisionError, AttributeError):
+                if not st.handlers: raise Unfoldable('try without handler')
+                h = st.handlers[0]
+                if h.name: env[h.name] = None
+                for s in h.body: self.stmt(s, env)
+                return
+            for s in st.orelse: self.stmt(s, env)
+            return
         raise Unfoldable('stmt %s' % type(st).__name__)
 
     def assign(self, t, v, env):
@@ -269,8 +283,6 @@ class Folder:
             for s in fn.body: self.stmt(s, env)
         except _Return as r:
             return r.v
-        except _Raise:
-            raise Unfoldable('initialiser raises')
         return None
 
 
